@@ -133,7 +133,11 @@ class EnvAdapter(engine.DevAdapter):
     def default_event(self, s, t):
         return ("a", self.default_action)
 
+    dev_until = None  # deviations only in slots < dev_until (the execution still runs to the horizon)
+
     def alternatives(self, s, t, left):
+        if self.dev_until is not None and t >= self.dev_until:
+            return []
         acts = self.dev_alphabet if self.dev_alphabet is not None else (
             self.alphabet if self.alphabet is not None else list(range(s.n_actions)))
         ev = [("a", i) for i in acts if i != self.default_action]
